@@ -106,6 +106,7 @@ EqNext == UNCHANGED vars
 \* ====================================================================================================================
 \* The spaces C15 enumerates itself (next to the C05 families CL / HO / EO and the seeded programs):
 \*   CO  hash-seed dimension : three function levels, several captured names first mentioned in different orders
+\*   WS  write sites         : which construct writes a local / captured / free variable x which slot of the list it has
 \*   FF  failing programs    : what fails x how deep x how the functions are made x what encloses the failing statement
 \*   FV  bystander programs  : use the names of FF's locals as globals / locals / undeclared names / labels
 \*   TX  programs whose built-ins compile or parse text at run time (regex literals, RegExp, string patterns, eval, ...)
@@ -152,6 +153,61 @@ COQuickSel(c) ==
   \/ (c.k = 4 /\ c.io \in {<<4, 3, 2, 1>>, <<2, 4, 1, 3>>})
   \/ (c.k < 4 /\ c.mid = "use" /\ c.lvl = "fn" /\ c.ns = "long" /\ c.dp = 0)
 COCases == {c \in COAll : ~Quick \/ COQuickSel(c)}
+
+\* ======================= family WS: write sites x slot position ==========================================================
+\* CO writes a captured variable with a plain assignment only.  Here: the construct that writes (wf: assignment, compound
+\* assignment, ++, the loop target of for-in / for-of written without `var`) x what the written name is to the function that
+\* writes it (kd: a free variable - of a closure of the owner, or of a closure of a closure (pass-through) -, a captured local
+\* (cell) of the writer itself, a parameter) x WHICH of three such names is written (t: every position of the slot list,
+\* whatever rule orders it - sorted, first mention, a set) x the order io in which the writer mentions the three names first
+\* x function / arrow x name length.  Every name is logged before and after, inside the loop body (which reads through the
+\* slot the compiler resolved for a READ), from the owner, and `typeof <written name>` at script level tells whether a global
+\* of that name appeared.
+WSForms == {"asg", "casg", "upd", "forin", "forof"}
+WSKinds == {"free", "pass", "cell", "param"}
+WSNames(ns) == IF ns = "short" THEN <<"a", "b", "c">> ELSE <<"alpha", "beta", "gamma">>
+WSWrite(wf, x) ==
+  CASE wf = "asg" -> <<Set(x, Plus(Var(x), I(100)))>>
+    [] wf = "casg" -> <<SExpr(CAsg("+", x, I(100)))>>
+    [] wf = "upd" -> <<SExpr(Upd("++", FALSE, x))>>
+    [] wf = "forin" -> <<SForIn(FALSE, x, Obj(<<"k7", "k8">>, <<I(1), I(2)>>), SBlock(<<SLog(Var(x))>>))>>
+    [] wf = "forof" -> <<SForOf(FALSE, x, Arr(<<I(7), I(8)>>), SBlock(<<SLog(Var(x))>>))>>
+WSReads(nm, io) == [j \in 1..3 |-> SLog(Var(nm[io[j]]))]
+WSBody(c) ==
+  LET nm == WSNames(c.ns)
+      wr == WSWrite(c.wf, nm[c.t])
+      acts == WSReads(nm, c.io) \o wr
+  IN CASE c.kd = "free" -> <<SVar1("W", FnL(c.lvl, <<>>, acts)), SExpr(Call(Var("W"), <<>>)), SExpr(Call(Var("W"), <<>>))>>
+       [] c.kd = "pass" -> <<SVar1("M", FnL(c.lvl, <<>>, <<SVar1("W", FnL(c.lvl, <<>>, acts)), SExpr(Call(Var("W"), <<>>))>>)),
+                             SExpr(Call(Var("M"), <<>>)), SExpr(Call(Var("M"), <<>>))>>
+       [] c.kd = "cell" -> <<SVar1("G", FnL(c.lvl, <<>>, WSReads(nm, c.io)))>> \o wr \o <<SExpr(Call(Var("G"), <<>>))>> \o wr
+                           \o <<SExpr(Call(Var("G"), <<>>))>>
+       [] c.kd = "param" -> acts \o WSReads(nm, c.io)
+WSProg(c) ==
+  LET nm == WSNames(c.ns)
+      tail == <<SLog(Var(nm[1])), SLog(Var(nm[2])), SLog(Var(nm[3])), SRet(I(9))>>
+      call(n) == IF c.kd = "param" THEN Call(Var("O"), <<I(n + 1), I(n + 2), I(n + 3)>>) ELSE Call(Var("O"), <<I(n)>>)
+  IN Prog(<<IF c.kd = "param" THEN SFun("O", <<nm[1], nm[2], nm[3]>>, WSBody(c) \o tail)
+            ELSE SFun("O", <<"p">>, <<SVar([j \in 1..3 |-> Decl(nm[j], Plus(Var("p"), I(j)))])>> \o WSBody(c) \o tail),
+            SLog(call(0)), SLog(call(10)), SLog(TypeOf(Var(nm[c.t]))), SLog(I(50))>>)
+WSAll == [wf : WSForms, kd : WSKinds, t : 1..3, io : Perms(3), lvl : {"fn", "arrow"}, ns : {"short", "long"}]
+WSValid(c) == c.kd = "param" => c.lvl = "fn"                                 \* no closure there: one representative
+\* quick: every (construct, kind, position) under one mention order; every mention order for the loop targets written from a
+\* closure, at the first position and at the first-mentioned one; arrows and long names for a loop target and for ++
+WSQuickSel(c) ==
+  \/ (c.io = <<1, 2, 3>> /\ c.lvl = "fn" /\ c.ns = "short")
+  \/ (c.wf \in {"forin", "forof"} /\ c.kd = "free" /\ c.t = 1 /\ c.lvl = "fn" /\ c.ns = "short")
+  \/ (c.wf = "forin" /\ c.kd \in {"free", "pass"} /\ c.io[1] = c.t /\ c.lvl = "fn" /\ c.ns = "short")
+  \/ (c.wf \in {"forin", "upd"} /\ c.io = <<2, 3, 1>> /\ c.lvl = "arrow" /\ c.ns = "long")
+WSQuickCases == {c \in WSAll : WSValid(c) /\ WSQuickSel(c)}
+WSCases == IF Quick THEN WSQuickCases ELSE {c \in WSAll : WSValid(c)}
+\* the quick sub-grid contains every class (checked whenever the module is loaded)
+WSGridLaw ==
+  /\ \A wf \in WSForms, kd \in WSKinds, t \in 1..3 : \E c \in WSQuickCases : c.wf = wf /\ c.kd = kd /\ c.t = t
+  /\ \A io \in Perms(3), wf \in {"forin", "forof"} : \E c \in WSQuickCases : c.io = io /\ c.wf = wf /\ c.kd = "free"
+  /\ \A io \in Perms(3), kd \in {"free", "pass"} : \E c \in WSQuickCases : c.io = io /\ c.kd = kd /\ c.io[1] = c.t
+  /\ \A kd \in WSKinds \ {"param"}, t \in 1..3 : \E c \in WSQuickCases : c.kd = kd /\ c.t = t /\ c.lvl = "arrow" /\ c.ns = "long" /\ c.wf = "forin"
+ASSUME WSGridLaw
 
 \* ======================= family FF: programs that fail ==================================================================
 \* fk   : what goes wrong.  Rejected before anything runs: text that is not a program (syn_*), an assignment / update / for-in
@@ -311,12 +367,12 @@ TXOther == <<
     "var t = \"a-b-c\".split(\"-\").join(\"+\") + /b+/.exec(\"abbbc\")[0]; t + \"abc\".indexOf(\"c\");",
     "var g = function (s) { return s.match(\"b+\") + \":\" + s.search(\"c\") + \":\" + s.replace(\"b\", \"B\"); }; g(\"abbc\") + \" \" + g(\"cabbb\");"
   >>
-TXAll == [k : {"rx"}, ct : TXCtors, api : TXApis, fl : {"", "g", "i"}, pat : 1..Len(TXPats), pl : {"top", "fn", "loop"}]
-TXValid(c) ==
+TXrAll == [k : {"rx"}, ct : TXCtors, api : TXApis, fl : {"", "g", "i"}, pat : 1..Len(TXPats), pl : {"top", "fn", "loop"}]
+TXrValid(c) ==
   /\ (c.ct = "str" => c.fl = "" /\ c.api \notin {"test", "exec"})              \* a string is no receiver, and has no flags
   /\ (c.api = "replaceAll" => c.fl = "g" \/ c.ct = "str")                       \* TypeError otherwise: another property's subject
 \* quick: every (constructor, method) pair; every flag and pattern for three pairs; every place for three pairs
-TXQuickSel(c) ==
+TXrQuickSel(c) ==
   \/ (c.pat = 1 /\ c.pl = "top" /\ (c.fl = "" \/ c.api = "replaceAll"))
   \/ (c.pl = "top" /\ <<c.ct, c.api>> \in {<<"lit", "match">>, <<"str", "match">>, <<"str", "search">>, <<"new", "exec">>})
   \/ (c.pat = 2 /\ c.fl \in {"", "g"} /\ <<c.ct, c.api>> \in {<<"lit", "test">>, <<"str", "search">>, <<"call", "replace">>, <<"copy", "split">>})
@@ -339,17 +395,17 @@ SLSrc(c) ==
        [] c.sh = "frees" -> "function F() { " \o d \o v \o " = 7; return function () { return function () { return " \o v \o " + 1; }; }; } String(F()()());"
        [] OTHER -> "function F() { " \o d \o "var g = function () { " \o v \o " = 3; v0 = 4; return " \o v \o " + v0; }; return g() + " \o v \o "; } String(F());"
 SLCases == [k : {"sl"}, sh : {"locals", "cells", "frees", "manycells"}, n : (IF Quick THEN {254, 256, 300} ELSE {200, 254, 255, 256, 257, 300, 600}), u : {0, 1, 2}]
-TXCases == {c \in TXAll : TXValid(c) /\ (~Quick \/ TXQuickSel(c))} \cup {[k |-> "x", j |-> j] : j \in 1..Len(TXOther)} \cup SLCases
+TXrCases == {c \in TXrAll : TXrValid(c) /\ (~Quick \/ TXrQuickSel(c))} \cup {[k |-> "x", j |-> j] : j \in 1..Len(TXOther)} \cup SLCases
 TXText(c) == IF c.k = "rx" THEN TXSrc(c) ELSE IF c.k = "sl" THEN SLSrc(c) ELSE TXOther[c.j]
 
 \* ======================= programs and histories ============================================================================
-ProgItems == {[fam |-> "CO", c |-> c] : c \in COCases} \cup {[fam |-> "FF", c |-> c] : c \in FFCases}
-             \cup {[fam |-> "FV", c |-> [kd |-> kd]] : kd \in FVKinds} \cup {[fam |-> "TX", c |-> c] : c \in TXCases}
+ProgItems == {[fam |-> "CO", c |-> c] : c \in COCases} \cup {[fam |-> "WS", c |-> c] : c \in WSCases} \cup {[fam |-> "FF", c |-> c] : c \in FFCases}
+             \cup {[fam |-> "FV", c |-> [kd |-> kd]] : kd \in FVKinds} \cup {[fam |-> "TX", c |-> c] : c \in TXrCases}
 ItemId(it) == it                              \* the parameter record itself (printed as JSON; the driver uses it as a key)
 ItemAst(it) == it.fam # "TX"
-ItemProg(it) == CASE it.fam = "CO" -> COProg(it.c) [] it.fam = "FF" -> FFProg(it.c) [] it.fam = "FV" -> FVProg(it.c.kd) [] OTHER -> Prog(<<>>)
-ItemRef(it) == CASE it.fam = "CO" -> TRUE [] it.fam = "FF" -> FFRef(it.c) [] it.fam = "FV" -> ~FVIsExit(it.c.kd) [] OTHER -> FALSE
-ItemExp(it) == CASE it.fam = "CO" -> "value" [] it.fam = "FF" -> FFExp(it.c) [] it.fam = "FV" -> FVExp(it.c.kd) [] OTHER -> ""
+ItemProg(it) == CASE it.fam = "CO" -> COProg(it.c) [] it.fam = "WS" -> WSProg(it.c) [] it.fam = "FF" -> FFProg(it.c) [] it.fam = "FV" -> FVProg(it.c.kd) [] OTHER -> Prog(<<>>)
+ItemRef(it) == CASE it.fam \in {"CO", "WS"} -> TRUE [] it.fam = "FF" -> FFRef(it.c) [] it.fam = "FV" -> ~FVIsExit(it.c.kd) [] OTHER -> FALSE
+ItemExp(it) == CASE it.fam \in {"CO", "WS"} -> "value" [] it.fam = "FF" -> FFExp(it.c) [] it.fam = "FV" -> FVExp(it.c.kd) [] OTHER -> ""
 \* A history: programs evaluated one after the other, each on a fresh context, in one process that evaluated nothing before;
 \* the whole list `rounds` times; clk = "b2b": the clock only moves while a program runs, "gap": between two evaluations
 \* more time passes than any context's time limit.
@@ -366,7 +422,7 @@ HFQuickSel(h) == \/ (h.pos = 1 /\ h.rot = 0 /\ h.clk = "gap")
 HFThoroughSel(h) == h.pos \in {1, 6, NV + 1} /\ h.rot = (h.pos * 3) % NV
 HFCases == {h \in HFAll : IF Quick THEN HFQuickSel(h) ELSE HFThoroughSel(h)}
 HFItems(h) == InsertAt(Rot([j \in 1..NV |-> ItemId([fam |-> "FV", c |-> [kd |-> FVOrder[j]]])], h.rot), h.pos, ItemId([fam |-> "FF", c |-> h.f]))
-TXOfPat(pat) == IF pat = 0 THEN {c \in TXCases : c.k = "x"} ELSE {c \in TXCases : c.k = "rx" /\ c.pat = pat}
+TXOfPat(pat) == IF pat = 0 THEN {c \in TXrCases : c.k = "x"} ELSE {c \in TXrCases : c.k = "rx" /\ c.pat = pat}
 HTCases == [pat : 0..Len(TXPats), rot : IF Quick THEN {0} ELSE {0, 5}, clk : {"b2b", "gap"}]
 SXQ == INSTANCE SequencesExt
 HTItems(h) == LET sq == SXQ!SetToSeq({ItemId([fam |-> "TX", c |-> c]) : c \in TXOfPat(h.pat)}) IN Rot(sq, h.rot % Len(sq))
@@ -384,4 +440,7 @@ ItemJson(it, steps) ==
 Enum15Init == /\ rec_i = 0 /\ cur \in C15Items
               /\ mst = InitState(IF ~IsHist(cur) /\ ItemRef(cur) THEN ItemProg(cur) ELSE Prog(<<>>), {})
 Enum15Emit == ~Halted(mst) \/ PrintT(ToJson(ItemJson(cur, mst.steps)))
+\* the full WS product alone (INIT Enum15WSInit): every program of the family on the reference machine, whatever the tier
+Enum15WSInit == /\ rec_i = 0 /\ cur \in {[fam |-> "WS", c |-> c] : c \in {c \in WSAll : WSValid(c)}}
+                /\ mst = InitState(ItemProg(cur), {})
 =============================================================================
